@@ -78,6 +78,8 @@ def stuck_reads(prog, fn, pidx):
         """may SSA value v differ between iterations of the loop (h, body)? True when it (transitively, staying inside the
         loop) depends on a phi of the loop header or on something opaque (a load, a call) evaluated inside the loop; an inner
         counter that restarts from a constant on every iteration of the outer loop does not."""
+        if isinstance(v, tuple):            # a walking pointer of E8's Lin: ("pp", header block, stride)
+            return v[1] in body
         key = (v, h)
         if key in memo:
             return memo[key]
